@@ -344,6 +344,10 @@ def twin_tables(spec, nsteps):
 # histories on the object under test
 
 
+class CallbackFailure(Exception):
+    """raised by the harness callback on request"""
+
+
 def max_steps(ops):
     n = 0
     for o in ops:
@@ -391,6 +395,12 @@ def run_history(spec, ops, step_ticks, cb_ticks, clock0=0, ctl=None):
             }
             clock.advance(cb_ticks[state["j"]])
             a = ctl[state["j"]] if (ctl is not None and state["j"] < len(ctl)) else None
+            if a == "raise":
+                # the callback fails part-way: its time has passed, then the exception leaves solve()
+                state["j"] += 1
+                seen["enter"], seen["leave"] = enter, clock.now
+                cblog.append(seen)
+                raise CallbackFailure("callback-raise")
             if a is not None:
                 if a[0] is not None:
                     opt.itnum = int(a[0])
@@ -415,6 +425,8 @@ def run_history(spec, ops, step_ticks, cb_ticks, clock0=0, ctl=None):
                         ret = s.solve(callback=callback if o["cb"] else None)
                     out["outcome"] = "ok"
                     out["ret"] = flat(ret)
+                except CallbackFailure:
+                    out["outcome"] = "cbraise"
                 except ValueError as e:
                     out["outcome"] = "nan" if "NaN or Inf" in str(e) else "ValueError"
                 except Exception as e:  # noqa: BLE001
